@@ -78,6 +78,7 @@ Definition err_index (e : err) : Z :=
   | EUnknownAcceptor => 31 | EDuplicateAcceptance => 32 | EInvalidAcceptor => 33 | EInvalidRejector => 34
   | EUnknownRejector => 35 | EDuplicateRejection => 36 | EFinalGroupEmpty => 37 | EKeyShareEmpty => 38
   | EReceivedAcceptance => 39 | EReceivedRejection => 40 | EInvalidKeyScheme => 41
+  | EMissingPreviousGroup => 42
   | EInvalidTransition a b => 100 + 12 * status_index a + status_index b
   | ENoMetadata => 50 | EShortSig => 51 | EInvalidPacket => 52 | ESigNoParticipant => 53 | ESigInvalid => 54
   | EGroupFileRequired => 55 | EGroupFileParse => 56 | EUnrecognizedCommand => 57 | EGossip => 58
